@@ -305,6 +305,12 @@ impl Peer {
         b.len()
     }
 
+    /// parse the endpoint's output as this protocol version from now on (combined server)
+    pub fn reset_decoder(&mut self, ver: Ver) {
+        self.ver = ver;
+        self.dec = StreamDecoder::new(ver);
+    }
+
     /// bytes of an incomplete packet at the end of the endpoint's output
     pub fn partial_tail(&self) -> usize {
         self.dec.buffered()
